@@ -119,7 +119,8 @@ const KS: &[&str] = &["ka", "kb", "kab", " ka", "kB", "k", "ka b"];
 const PINS: &[&str] = &["p:b", "a", "p:a", "c", "", "p:", " a", "p:c", "b"];
 const TRAIL: &[&str] = &["a 2", "b 10", "c 9", "d 10", "", "x", "  e 2"];
 const KJ: &[&str] = &["k 7", "j 7", "k 10", "j 2", "x", "", "  k 3  "];
-const TINY: &[&str] = &["0.0000000000000003", "0.0000000000000001", "1", "1.0000000000000002", "0", "-0.0000000000000002"];
+// (`-0`, `0`, `0.0` and `-0.0` are one and the same number: equal neighbours are in order)
+const TINY: &[&str] = &["0.0000000000000003", "0.0000000000000001", "1", "1.0000000000000002", "0", "-0.0000000000000002", "-0", "-0.0"];
 const DIRS: &[Option<&str>] = &[None, Some(""), Some("asc"), Some("ASC"), Some("desc"), Some("Desc")];
 
 pub fn enumerated(max_len: usize, batch: usize) -> Vec<KsBatch> {
